@@ -44,6 +44,9 @@ class ModInfo:
             for n, its in decls.items():
                 if len(its) > 1:
                     d.append((space, n, len(its)))
+                if n in self.imports:
+                    # an import binding and a local declaration of one name: the module binds the name twice
+                    d.append(("import+" + space, n, len(its) + 1))
         return d
 
 
